@@ -10,6 +10,7 @@ import (
 
 	"fmt"
 	"math/big"
+	"sort"
 	"time"
 
 	sdkmath "cosmossdk.io/math"
@@ -318,6 +319,7 @@ type result struct {
 	err    error
 	shares *big.Int  // mint: derivative minted; burn: shares received (mantissa)
 	tally  *tallyOut // tally
+	tin    *tallyIn  // tally: the inputs the handler read
 }
 
 func coinU(amt *big.Int) sdk.Coin {
@@ -363,7 +365,11 @@ func (w *world) exec(op Op) (res result) {
 		})
 		return
 	case "tally":
-		return w.execTally(w.ctx, op.Votes)
+		res = w.execTally(w.ctx, op.Votes)
+		if res.cls == ClassOk {
+			res.tin = w.tallyInputs(w.ctx, op.Votes)
+		}
+		return
 	}
 	res.cls, res.err = Atomically(w.ctx, func(ctx sdk.Context) error {
 		g := sdk.WrapSDKContext(ctx)
@@ -516,4 +522,155 @@ func voteOption(o int) govv1.VoteOption {
 		return govv1.OptionNo
 	}
 	return govv1.OptionNoWithVeto
+}
+
+// ------------------------------------------------------------ the inputs of the tally fold
+
+// coinIn: a validator index with an amount (delegation shares mantissa, or derivative units)
+type coinIn struct {
+	V   int
+	Amt *big.Int
+}
+
+type voterIn struct {
+	Voter                      int
+	Dels, Wallet, Savings, Earn []coinIn
+}
+
+type currIn struct {
+	V              int
+	Tokens, Shares *big.Int
+}
+
+// tallyIn: what app/tally_handler.go reads through the keepers for one tally, and the
+// totalVotingPower its formulas give on these inputs with the SDK's own LegacyDec
+type tallyIn struct {
+	Curr   []currIn
+	Bonded *big.Int
+	Voters []voterIn
+	Total  *big.Int // mantissa
+}
+
+func (w *world) valIndex(v sdk.ValAddress) int {
+	for i, x := range w.vals {
+		if x.Equals(v) {
+			return i
+		}
+	}
+	return -1
+}
+
+func sortCoins(cs []coinIn) []coinIn {
+	sort.Slice(cs, func(i, j int) bool { return cs[i].V < cs[j].V })
+	return cs
+}
+
+// tallyInputs reads, with the same keeper calls as the handler, the bonded validators, the
+// total bonded tokens and every voter's delegations and derivative coins, then re-computes
+// totalVotingPower.  nil when one of the handler's divisions would panic.
+func (w *world) tallyInputs(ctx sdk.Context, votes []Vote) (ti *tallyIn) {
+	defer func() {
+		if r := recover(); r != nil {
+			ti = nil
+		}
+	}()
+	ti = &tallyIn{Bonded: w.sk.TotalBondedTokens(ctx).BigInt()}
+	type cv struct {
+		tokens sdkmath.Int
+		shares sdk.Dec
+		ded    sdk.Dec
+		voted  bool
+	}
+	curr := map[int]*cv{}
+	w.sk.IterateBondedValidatorsByPower(ctx, func(_ int64, v stakingtypes.ValidatorI) bool {
+		i := w.valIndex(v.GetOperator())
+		curr[i] = &cv{tokens: v.GetBondedTokens(), shares: v.GetDelegatorShares(), ded: sdk.ZeroDec()}
+		ti.Curr = append(ti.Curr, currIn{i, v.GetBondedTokens().BigInt(), v.GetDelegatorShares().BigInt()})
+		return false
+	})
+	sort.Slice(ti.Curr, func(i, j int) bool { return ti.Curr[i].V < ti.Curr[j].V })
+	svk := w.tApp.GetSavingsKeeper()
+	ek := w.tApp.GetEarnKeeper()
+	total := sdk.ZeroDec()
+	derivIdx := func(denom string) int {
+		va, err := liquidtypes.ParseLiquidStakingTokenDenom(denom)
+		if err != nil {
+			return -1
+		}
+		return w.valIndex(va)
+	}
+	for _, vt := range votes {
+		addr := w.addrs[vt.Voter]
+		vi := voterIn{Voter: vt.Voter}
+		// the voter is a validator operator: its vote is recorded for the second pass
+		if c, ok := curr[w.valIndex(sdk.ValAddress(addr.Bytes()))]; ok && len(vt.Opts) > 0 {
+			c.voted = true
+		}
+		w.sk.IterateDelegations(ctx, addr, func(_ int64, d stakingtypes.DelegationI) bool {
+			i := w.valIndex(d.GetValidatorAddr())
+			vi.Dels = append(vi.Dels, coinIn{i, d.GetShares().BigInt()})
+			if c, ok := curr[i]; ok {
+				c.ded = c.ded.Add(d.GetShares())
+				total = total.Add(d.GetShares().MulInt(c.tokens).Quo(c.shares))
+			}
+			return false
+		})
+		sortCoins(vi.Dels)
+		sum := map[int]sdkmath.Int{}
+		add := func(dst *[]coinIn, c sdk.Coin) {
+			if !c.Amount.IsPositive() {
+				return
+			}
+			i := derivIdx(c.Denom)
+			*dst = append(*dst, coinIn{i, c.Amount.BigInt()})
+			if _, ok := sum[i]; !ok {
+				sum[i] = sdk.ZeroInt()
+			}
+			sum[i] = sum[i].Add(c.Amount)
+		}
+		for _, c := range w.bk.GetAllBalances(ctx, addr) {
+			if w.lk.IsDerivativeDenom(ctx, c.Denom) {
+				add(&vi.Wallet, c)
+			}
+		}
+		if dep, found := svk.GetDeposit(ctx, addr); found {
+			for _, c := range dep.Amount {
+				if w.lk.IsDerivativeDenom(ctx, c.Denom) {
+					add(&vi.Savings, c)
+				}
+			}
+		}
+		if shares, found := ek.GetVaultAccountShares(ctx, addr); found {
+			for _, sh := range shares {
+				if w.lk.IsDerivativeDenom(ctx, sh.Denom) {
+					if c, err := ek.ConvertToAssets(ctx, sh); err == nil {
+						add(&vi.Earn, c)
+					}
+				}
+			}
+		}
+		sortCoins(vi.Wallet)
+		sortCoins(vi.Savings)
+		sortCoins(vi.Earn)
+		for i, amt := range sum {
+			c, ok := curr[i]
+			if !ok {
+				continue
+			}
+			c.ded = c.ded.Add(sdk.NewDecFromInt(amt))
+			staked, err := w.lk.GetStakedTokensForDerivatives(ctx, sdk.NewCoins(sdk.NewCoin(w.denoms[i], amt)))
+			if err != nil {
+				panic(err)
+			}
+			total = total.Add(sdk.NewDecFromInt(staked.Amount))
+		}
+		ti.Voters = append(ti.Voters, vi)
+	}
+	for _, c := range curr {
+		if c.voted {
+			total = total.Add(c.shares.Sub(c.ded).MulInt(c.tokens).Quo(c.shares))
+		}
+	}
+	ti.Total = total.BigInt()
+	return ti
 }
